@@ -850,6 +850,23 @@ func (t *ctTr) analyse(f *ctFn) bool {
 	return changed
 }
 
+// ctMayFail: evaluating the expression can panic at run time (be stuck in the IR)
+func ctMayFail(e ast.Expr) bool {
+	bad := false
+	ast.Inspect(e, func(n ast.Node) bool {
+		switch v := n.(type) {
+		case *ast.IndexExpr, *ast.SliceExpr, *ast.TypeAssertExpr:
+			bad = true
+		case *ast.BinaryExpr:
+			if v.Op == token.SHL || v.Op == token.SHR || v.Op == token.QUO || v.Op == token.REM {
+				bad = true
+			}
+		}
+		return !bad
+	})
+	return bad
+}
+
 func ctExtKey(o *types.Func) string {
 	sig := o.Type().(*types.Signature)
 	if r := sig.Recv(); r != nil && ctIsBigInt(r.Type()) {
@@ -907,11 +924,11 @@ type fnTr struct {
 	wr       []ctWrite
 	loops    []ast.Node
 	junk     int
-	rdPos    int                      // variable holding the position of the reader (functions that call io.ReadFull), else -1
-	views    map[types.Object]*ctView // slice variables represented as a window (base variable, offset variable)
-	capVar   map[types.Object]int     // hidden parameters: capacity of a slice parameter
-	branches []ctBranch               // enclosing if-branches (for the aliasing discipline)
-	curEnd   token.Pos                // end of the simple statement being translated
+	rdPos    int                         // variable holding the position of the reader (functions that call io.ReadFull), else -1
+	views    map[types.Object]*ctView    // slice variables represented as a window (base variable, offset variable)
+	capVar   map[types.Object]int        // hidden parameters: capacity of a slice parameter
+	branches []ctBranch                  // enclosing if-branches (for the aliasing discipline)
+	curEnd   token.Pos                   // end of the simple statement being translated
 	builders map[types.Object]*ctBuilder // slices built by append into a prefix of a local array (ctirproto.go)
 }
 
@@ -1304,7 +1321,11 @@ func (x *fnTr) binary(v *ast.BinaryExpr, pre *[]string) string {
 	}
 	if v.Op == token.LAND || v.Op == token.LOR {
 		a := x.expr(v.X, pre)
-		if !x.hasEffects(v.Y) {
+		// the strict operators .land / .lor evaluate both operands: exact only if the right operand cannot fail
+		// (an index or slice out of range, a shift count) when Go would have skipped it — or if the left operand is
+		// the constant that makes Go evaluate the right one anyway
+		forced := (v.Op == token.LOR && a == "(.lit 0)") || (v.Op == token.LAND && a == "(.lit 1)")
+		if !x.hasEffects(v.Y) && (forced || !ctMayFail(v.Y)) {
 			var p2 []string
 			b := x.expr(v.Y, &p2)
 			if len(p2) == 0 {
@@ -1641,6 +1662,9 @@ func (x *fnTr) call(call *ast.CallExpr, pre *[]string, used bool) []string {
 	case "":
 	default:
 		x.fail(call.Pos(), "unsupported builtin %s", x.builtinName(call))
+	}
+	if rs, ok := x.protoCall(call, pre, used); ok {
+		return rs
 	}
 	if key := x.t.devirtKey(x.p, call); key != "" {
 		g, ok := x.t.fns[key]
@@ -2895,17 +2919,41 @@ func ctBuild() string {
 				wr = append(wr, f.params[j].Name())
 			}
 		}
-		fmt.Fprintf(&sb, "/-- %s (%s)\n    variables: %s\n    returns: final values of [%s], then the %d Go result(s) -/\n", f.key, pos, strings.Join(vn, " "), strings.Join(wr, ", "), len(f.results))
-		fmt.Fprintf(&sb, "def fn_%d : Fn := { nparams := %d, nvars := %d, body :=\n  %s }\n\n", f.id, len(f.params)+len(f.capParams), f.nvars, f.body)
-	}
-	sb.WriteString("def prog : Prog := [")
-	for i := range t.order {
-		if i > 0 {
-			sb.WriteString(", ")
+		text := fmt.Sprintf("/-- %s (%s)\n    variables: %s\n    returns: final values of [%s], then the %d Go result(s) -/\n", f.key, pos, strings.Join(vn, " "), strings.Join(wr, ", "), len(f.results)) +
+			fmt.Sprintf("def fn_%d : Fn := { nparams := %d, nvars := %d, body :=\n  %s }\n\n", f.id, len(f.params)+len(f.capParams), f.nvars, f.body)
+		if ctBase != nil && f.id < ctBase.nfn {
+			// an extension of another generated program: the function is the one of the base program (same number, and the
+			// translator would emit the same text: checked against the base file)
+			if !strings.Contains(ctBase.text, text) {
+				die("ctir: function %d (%s) differs from the one in the base program %s", f.id, f.key, ctBase.ns)
+			}
+			fmt.Fprintf(&sb, "/-- %s: the function of the base program -/\ndef fn_%d : Fn := %s.fn_%d\n\n", f.key, f.id, ctBase.ns, f.id)
+			continue
 		}
-		fmt.Fprintf(&sb, "fn_%d", i)
+		sb.WriteString(text)
 	}
-	sb.WriteString("]\n\n")
+	if ctBase != nil {
+		if len(t.order) < ctBase.nfn {
+			die("ctir: fewer functions than the base program")
+		}
+		sb.WriteString("def extra : List Fn := [")
+		for i := ctBase.nfn; i < len(t.order); i++ {
+			if i > ctBase.nfn {
+				sb.WriteString(", ")
+			}
+			fmt.Fprintf(&sb, "fn_%d", i)
+		}
+		fmt.Fprintf(&sb, "]\n\n/-- the base program followed by the new functions -/\ndef prog : Prog := %s.prog ++ extra\n\n", ctBase.ns)
+	} else {
+		sb.WriteString("def prog : Prog := [")
+		for i := range t.order {
+			if i > 0 {
+				sb.WriteString(", ")
+			}
+			fmt.Fprintf(&sb, "fn_%d", i)
+		}
+		sb.WriteString("]\n\n")
+	}
 	ctStrList(&sb, "fnNames", names)
 	ctStrList(&sb, "notTranslated", failedL)
 	sb.WriteString("/-- labels: parameters by Go type (int, bool, interfaces public; bytes, words, arrays, elements, points secret)\n    with the overrides of labelOverride; results: written parameters, then Go results (int results are verdict codes: secret) -/\ndef sigs : Sigs := {\n  fn := [\n")
@@ -2950,6 +2998,12 @@ func ctBuild() string {
 	}
 	for i, e := range t.exts {
 		fmt.Fprintf(&sb, "def x_%s : Nat := %d\n", ctIdent(e), i)
+		if ctBase != nil && i < len(ctBase.exts) && ctBase.exts[i] != e {
+			die("ctir: external %d is %s, but %s in the base program", i, e, ctBase.exts[i])
+		}
+	}
+	if ctBase != nil && (len(t.exts) < len(ctBase.exts) || len(t.globals) < len(ctBase.globals)) {
+		die("ctir: fewer externals or globals than the base program")
 	}
 	sb.WriteString("\n/-- declassification sites: (number, function, condition, reason, position) -/\ndef siteInfo : List (Nat × String × String × String × String) := [")
 	for i, s := range t.sites {
@@ -2979,6 +3033,14 @@ def elemOfBytes (G : Nat → Val) (f : Nat) (b : Val) : Val := (runRes G f [zero
 	ctStrList(&sb, "globalNames", t.globals)
 	prev := []string{}
 	for i, g := range t.globals {
+		if ctBase != nil && i < len(ctBase.globals) {
+			if ctBase.globals[i] != g {
+				die("ctir: global %d is %s, but %s in the base program", i, g, ctBase.globals[i])
+			}
+			fmt.Fprintf(&sb, "/-- %s: the value of the base program -/\ndef g_%d : Val := %s.g_%d\n\n", g, i, ctBase.ns, i)
+			prev = append(prev, fmt.Sprintf("g_%d", i))
+			continue
+		}
 		fmt.Fprintf(&sb, "/-- %s -/\ndef g_%d : Val :=\n  let G := mkG [%s]\n", g, i, strings.Join(prev, ", "))
 		if lean, ok := globalLean[g]; ok {
 			fmt.Fprintf(&sb, "  have _ := G\n  %s\n\n", lean)
